@@ -1,7 +1,6 @@
 package c17
 
 import (
-	"bytes"
 	"encoding/json"
 	"fmt"
 	"os"
@@ -34,6 +33,11 @@ type Case struct {
 
 func TestMain(m *testing.M) {
 	env.Quiet()
+	if f := os.Getenv(childEnv); f != "" {
+		// the restarted node of restart_in_new_process (restart_child_test.go): never reaches the tests
+		os.Exit(childMain(f))
+	}
+	registerRestartReplay()
 	pbt.RegisterReplay("balances", func(raw json.RawMessage) error {
 		var c Case
 		if err := json.Unmarshal(raw, &c); err != nil {
@@ -69,11 +73,23 @@ func addrOf(script []byte) *btc.BtcAddr {
 	return nil
 }
 
-func run(c Case, st *stats) (*sim.Sim, error) {
+func run(c Case, st *stats) (*sim.Sim, error) { return runExt(c, st, nil) }
+
+// ext is what restart_in_new_process adds to a run: the operation "shutdown" (the index is on, the node is about to
+// exit) is handed to onShutdown, which saves the index, closes the node and leaves the index switched off.
+type ext struct {
+	seen       map[string]bool // (out) every address-shaped script paid by any mined block
+	onShutdown func(s *sim.Sim, curMin uint64) error
+}
+
+func runExt(c Case, st *stats, x *ext) (*sim.Sim, error) {
 	if st == nil {
 		st = &stats{}
 	}
 	seen := map[string]bool{} // every address-shaped script ever paid
+	if x != nil {
+		x.seen = seen
+	}
 	emptied := map[string]bool{}
 	var s *sim.Sim
 	walletOn := false
@@ -106,95 +122,7 @@ func run(c Case, st *stats) (*sim.Sim, error) {
 		if !walletOn {
 			return nil
 		}
-		// projection of the model's unspent set onto each address
-		type out struct {
-			key   [36]byte
-			value uint64
-		}
-		proj := map[string][]out{}
-		for k, coin := range s.Tip.View {
-			if seen[string(coin.Script)] && coin.Value >= curMin {
-				proj[string(coin.Script)] = append(proj[string(coin.Script)], out{k, coin.Value})
-			}
-		}
-		records := 0
-		for scr := range seen {
-			script := []byte(scr)
-			want := proj[scr]
-			sort.Slice(want, func(i, j int) bool { return bytes.Compare(want[i].key[:], want[j].key[:]) < 0 })
-			got := wallet.GetAllUnspent(addrOf(script))
-			st.lookups++
-			var gl []out
-			for _, u := range got {
-				gl = append(gl, out{consensus.OutKey(u.TxPrevOut.Hash, u.TxPrevOut.Vout), u.Value})
-			}
-			sort.Slice(gl, func(i, j int) bool { return bytes.Compare(gl[i].key[:], gl[j].key[:]) < 0 })
-			if len(gl) != len(want) {
-				return fmt.Errorf("address of script %x: the index lists %d unspent outputs, the unspent set holds %d (>= %d satoshi)", script, len(gl), len(want), curMin)
-			}
-			var total uint64
-			for i := range want {
-				if gl[i] != want[i] {
-					return fmt.Errorf("address of script %x: listed output %x:%d value %d, expected %x:%d value %d", script, gl[i].key[:6], gl[i].key[32], gl[i].value, want[i].key[:6], want[i].key[32], want[i].value)
-				}
-				total += want[i].value
-			}
-			if len(want) > 0 {
-				st.nonEmpty++
-				records++
-				if emptied[scr] {
-					st.emptiedAndRepaid++
-					delete(emptied, scr)
-				}
-			} else {
-				emptied[scr] = true
-			}
-			// the record total
-			idx, uidx := wallet.Script2Idx(script)
-			var recTotal uint64
-			var recCount = -1
-			wallet.Browse(func(t int, h wallet.OneAddrIndex, r *wallet.OneAllAddrBal) {
-				if t == idx && h == uidx {
-					recTotal, recCount = r.Value, r.Count()
-				}
-			})
-			if len(want) == 0 && recCount != -1 {
-				return fmt.Errorf("address of script %x has no unspent output, yet the index keeps a record (%d outputs, total %d)", script, recCount, recTotal)
-			}
-			if len(want) > 0 && (recCount != len(want) || recTotal != total) {
-				return fmt.Errorf("address of script %x: index record says %d outputs / total %d, the unspent set gives %d / %d", script, recCount, recTotal, len(want), total)
-			}
-			if len(want) >= int(c.UseMapCnt) {
-				st.mapForm++
-			}
-		}
-		// an address of ANOTHER witness version with the program of an indexed version-0 address denotes another
-		// script (not a standard one, not indexed): asking for it must not return the version-0 address's outputs
-		for scr := range seen {
-			script := []byte(scr)
-			v, prog, ok := consensus.WitnessProgram(script)
-			if !ok || v != 0 || len(proj[scr]) == 0 {
-				continue
-			}
-			vers := []int{2 + int(prog[0])%15}
-			if len(prog) == 20 {
-				vers = append(vers, 1)
-			}
-			for _, fv := range vers {
-				foreign := &btc.BtcAddr{SegwitProg: &btc.SegwitProg{HRP: "bc", Version: fv, Program: append([]byte{}, prog...)}}
-				if got := wallet.GetAllUnspent(foreign); len(got) != 0 {
-					return fmt.Errorf("the address of witness version %d with program %x (script %x is not in the unspent set) is reported with %d unspent outputs - those of the version-0 address with the same program", fv, prog, foreign.OutScript(), len(got))
-				}
-				st.foreign++
-			}
-		}
-		// no record for anything else
-		n := 0
-		wallet.Browse(func(int, wallet.OneAddrIndex, *wallet.OneAllAddrBal) { n++ })
-		if n != records {
-			return fmt.Errorf("the index holds %d address records, %d addresses have unspent outputs", n, records)
-		}
-		return nil
+		return compareIndex(seen, s.Tip.View, curMin, c.UseMapCnt, emptied, st)
 	}
 	hooks := sim.Hooks{AfterStep: func(ss *sim.Sim, op sim.Op) error {
 		s = ss
@@ -250,6 +178,22 @@ func run(c Case, st *stats) (*sim.Sim, error) {
 					walletOn = common.Get(&common.WalletON)
 				} else {
 					common.CFG.AllBalances.MinValue = curMin // nothing was saved: the node keeps running as it was
+				}
+			}
+		case "shutdown":
+			// restart_in_new_process: the node (index on) exits here; what follows in this process only produces the
+			// blocks the restarted node is going to receive
+			if x != nil && x.onShutdown != nil {
+				if !walletOn {
+					enable()
+				}
+				if err := check(); err != nil {
+					return fmt.Errorf("before the shutdown: %v", err)
+				}
+				err := x.onShutdown(s, curMin)
+				walletOn = common.Get(&common.WalletON)
+				if err != nil {
+					return err
 				}
 			}
 		}
@@ -369,21 +313,7 @@ var profile = sim.Profile{
 func genCase(t *rapid.T, p sim.Profile) Case {
 	c := Case{Sim: sim.GenCase(t, p)}
 	c.Sim.Params.Signed = true
-	// few distinct destinations so that addresses collect many outputs
-	for i := range c.Sim.Ops {
-		for j := range c.Sim.Ops[i].Txs {
-			for k := range c.Sim.Ops[i].Txs[j].Outs {
-				o := &c.Sim.Ops[i].Txs[j].Outs[k]
-				if f := o.Fam % 18; f == 12 || f == 13 {
-					o.N = o.N/7%31*7 + o.N%3 // (scripts resembling address forms: every shape, three scripts of each)
-				} else {
-					o.N = o.N % 3
-				}
-				// now and then an output of value 0 (indexed when the minimum value is 0)
-				o.Zero = rapid.IntRange(0, 9).Draw(t, "zero") == 0
-			}
-		}
-	}
+	fewDestinations(t, c.Sim.Ops, 9)
 	// sprinkle index off/on switches
 	var ops []sim.Op
 	for _, op := range c.Sim.Ops {
@@ -413,6 +343,24 @@ func genCase(t *rapid.T, p sim.Profile) Case {
 	c.UseMapCnt = uint32(rapid.SampledFrom([]int{2, 3, 3, 5, 200}).Draw(t, "usemapcnt"))
 	c.StartOn = rapid.IntRange(0, 3).Draw(t, "starton") != 0
 	return c
+}
+
+// fewDestinations maps the outputs of the operations onto few distinct destinations, so that addresses collect many
+// outputs; one output in zeroOneIn+1 carries the value 0 (indexed when the minimum value is 0).
+func fewDestinations(t *rapid.T, ops []sim.Op, zeroOneIn int) {
+	for i := range ops {
+		for j := range ops[i].Txs {
+			for k := range ops[i].Txs[j].Outs {
+				o := &ops[i].Txs[j].Outs[k]
+				if f := o.Fam % 18; f == 12 || f == 13 {
+					o.N = o.N/7%31*7 + o.N%3 // (scripts resembling address forms: every shape, three scripts of each)
+				} else {
+					o.N = o.N % 3
+				}
+				o.Zero = rapid.IntRange(0, zeroOneIn).Draw(t, "zero") == 0
+			}
+		}
+	}
 }
 
 func TestBalances(t *testing.T) {
